@@ -30,7 +30,7 @@ def run(prop, tier):
         if stats["cases"] == 0:
             raise C.ToolError("no REPLAY cases")
         rnd = os.path.join(wd, "sc.rnd")
-        C.run_harness(["xp-record", "--scalar", "--seed", str(C.seed()), "--n", str(t["rnd"]), "--out", rnd])
+        C.run_harness_watched(["xp-record", "--scalar", "--seed", str(C.seed()), "--n", str(t["rnd"]), "--out", rnd], rnd)
         with open(trace, "a") as f, open(rnd) as g:
             for line in g:
                 f.write(line)
